@@ -394,6 +394,10 @@ class LexicalEnum(Lexical, LangCommonEnum, lexcopy=True):
 
     __hash__ = Lexical.__hash__
 
+    # Members are read-only once the package is initialized. The setter copied
+    # from Lexical defers to LexicalAbc, so use the Enum base setter.
+    __setattr__ = LangCommonEnum.__setattr__
+
     @classmethod
     def first(cls) -> Self:
         if cls is __class__:
